@@ -33,9 +33,24 @@ type spell struct {
 }
 
 type gentry struct {
-	Scope string `json:"scope"` // local | global | env
-	K     ckey   `json:"key"`
-	Val   string `json:"value"`
+	Scope   string `json:"scope"` // where the user's setting lives: local | global | env | cmdline | include
+	K       ckey   `json:"key"`
+	Val     string `json:"value"`
+	OKind   string `json:"override_kind,omitempty"` // other | empty | blank | same | boolalt | valueless
+	IncFrom string `json:"included_from,omitempty"` // include scope: which file holds the [include] directive (global | local)
+}
+
+// coord names the coordinates of one override: kind of value / key pattern / location of the Git setting.
+func (g gentry) coord(name string) string {
+	k := g.OKind
+	if k == "" {
+		k = "other"
+	}
+	if k == "valueless" {
+		// one root cause whatever the key and the location: a single signature
+		return "override-valueless-bool"
+	}
+	return fmt.Sprintf("override-%s/%s/%s", k, name, g.Scope)
 }
 
 type kase struct {
@@ -50,6 +65,8 @@ type kase struct {
 	Creds       bool     `json:"credential_store"`
 	Noise       int64    `json:"noise_seed"`
 	KnownFamily string   `json:"known_family,omitempty"`
+	Light       bool     `json:"light_command_set,omitempty"` // override cases: env, fetch, pull, push only
+	Missing     bool     `json:"missing_object,omitempty"`    // a third pointer whose object exists nowhere (makes skipdownloaderrors / allowincompletepush observable)
 }
 
 type variantInfo struct {
@@ -235,11 +252,20 @@ type generator struct {
 	seed   int64
 	perm   []int // permutation of unsafeTemplates for stratified single-key cases
 	nKnown map[string]int
+	// override cases: permutation of the 25 (kind, where) pairs and the key each pair starts with
+	pairPerm []int
+	keyOff   []int
 }
 
 func newGenerator(pats []docPat, seed int64) *generator {
 	r := rand.New(rand.NewSource(seed*7919 + 17))
-	return &generator{pats: pats, seed: seed, perm: r.Perm(len(unsafeTemplates)), nKnown: map[string]int{}}
+	g := &generator{pats: pats, seed: seed, perm: r.Perm(len(unsafeTemplates)), nKnown: map[string]int{}}
+	r2 := rand.New(rand.NewSource(seed*104729 + 5))
+	g.pairPerm = r2.Perm(25)
+	for i := 0; i < 25; i++ {
+		g.keyOff = append(g.keyOff, r2.Intn(len(allowedTemplates)))
+	}
+	return g
 }
 
 func (g *generator) mkEntry(r *rand.Rand, t tmpl, idx int, slot string) entry {
@@ -393,7 +419,7 @@ func (g *generator) genCase(i int) kase {
 			if j == 0 || r.Intn(3) > 0 {
 				e := c.Entries[j]
 				vals := gitcfgValues[e.Name]
-				c.GitCfg = append(c.GitCfg, gentry{Scope: []string{"local", "global", "env"}[r.Intn(3)], K: e.K, Val: vals[r.Intn(len(vals))]})
+				c.GitCfg = append(c.GitCfg, gentry{Scope: []string{"local", "global", "env"}[r.Intn(3)], K: e.K, Val: vals[r.Intn(len(vals))], OKind: "other"})
 				nover++
 			}
 		}
@@ -471,6 +497,151 @@ func (g *generator) genCase(i int) kase {
 	return c
 }
 
+// ---------------------------------------------------------------- override cases
+//
+// Precedence clause, stratified: every allow-listed key x kind of the value the
+// user's Git configuration holds x place that setting lives in. Case j of the
+// block takes the j-th (kind, where) pair of a seeded permutation of the 25
+// pairs and walks the keys so that 10 consecutive blocks of 25 visit every
+// triple once.
+
+var overrideKinds = []string{"other", "empty", "blank", "same", "boolalt"}
+var overrideWheres = []string{"local", "global", "cmdline", "env", "include"}
+var boolKeys = map[string]bool{"lfs.locksverify": true, "lfs.skipdownloaderrors": true, "lfs.allowincompletepush": true}
+var boolSpellings = []string{"yes", "on", "1", "True", "TRUE", "no", "off", "0", "False", "FALSE"}
+
+// overrideValue draws what the user's Git configuration holds for a key that .lfsconfig sets to e.Val.
+func overrideValue(r *rand.Rand, e entry, kind, where string) (string, string) {
+	switch kind {
+	case "empty":
+		return "", kind
+	case "blank": // Git keeps such a value when it is quoted in a file, and verbatim after -c key= / in GIT_CONFIG_VALUE_n
+		return []string{"  ", " ", " \t"}[r.Intn(3)], kind
+	case "same":
+		return e.Val, kind
+	case "valueless": // `key` without "= value" is Git's third spelling of true
+		return "", kind
+	case "boolalt":
+		if !boolKeys[e.Name] { // not a boolean: the rarest kind instead
+			return "", "empty"
+		}
+		for {
+			if v := boolSpellings[r.Intn(len(boolSpellings))]; v != e.Val {
+				return v, kind
+			}
+		}
+	}
+	vals := gitcfgValues[e.Name]
+	return vals[r.Intn(len(vals))], "other"
+}
+
+func boolTemplates() []tmpl {
+	var out []tmpl
+	for _, t := range allowedTemplates {
+		if boolKeys[t.Name] {
+			out = append(out, t)
+		}
+	}
+	return out
+}
+
+func (g *generator) genOverrideCase(i, j int) kase {
+	r := rand.New(rand.NewSource(g.seed*1000003 + int64(i)))
+	c := kase{Idx: i, Noise: r.Int63(), Kind: "override", Light: true, Missing: true}
+	c.Loc = []string{"worktree", "worktree", "index", "head", "bare"}[r.Intn(5)]
+	c.Variant = pickVariant(r)
+	c.TrackBranch = r.Intn(6) == 0
+	c.OneShot = r.Intn(2) == 0
+	c.Creds = r.Intn(5) != 0
+	if j%8 == 7 { // now and then the whole command set
+		c.Light = false
+	}
+	slot := c.Loc
+	if slot == "bare" {
+		slot = "head"
+	}
+	nk := len(allowedTemplates)
+	pair := g.pairPerm[j%25]
+	kind, where := overrideKinds[pair/5], overrideWheres[pair%5]
+	t := allowedTemplates[(g.keyOff[j%25]+j/25)%nk]
+	if kind == "boolalt" { // only the boolean keys have other spellings: walk those
+		b := j / 25
+		t = boolTemplates()[(g.keyOff[j%25]+b+b/3)%3]
+		// the valueless spelling at a fixed place of every block (GIT_CONFIG_VALUE_n cannot express it);
+		// over 9 blocks every (boolean key, where) pair gets it once
+		if where != "env" && (b+pair%5)%3 == 0 {
+			kind = "valueless"
+		}
+	}
+	switch t.Name {
+	case "lfs.gitprotocol": // read for git:// remotes only
+		c.Variant = "gitproto-origin"
+	default:
+		if c.Variant == "gitproto-origin" { // that layout runs no network command
+			c.Variant = "origin"
+		}
+	}
+	idx := 0
+	over := func(t tmpl, kind, where string) {
+		e := g.mkEntry(r, t, idx, slot)
+		idx++
+		if t.Name == "lfs.<url>.access" && r.Intn(3) > 0 { // mostly the subsection that matches the endpoint in use
+			e.K.Sub = "@EP1@"
+		}
+		v, k := overrideValue(r, e, kind, where)
+		ge := gentry{Scope: where, K: e.K, Val: v, OKind: k}
+		if where == "include" {
+			ge.IncFrom = []string{"global", "local"}[r.Intn(2)]
+		}
+		c.Entries = append(c.Entries, e)
+		c.GitCfg = append(c.GitCfg, ge)
+	}
+	over(t, kind, where)
+	// up to two more overridden keys, each with a kind and a place of its own (never next to the valueless
+	// spelling, which has a signature of its own; never lfs.url / lfs.gitprotocol, which would hide or need
+	// the primary key's effect). A difference is minimised entry by entry before it gets its signature.
+	if c.GitCfg[0].OKind != "valueless" {
+		used := map[string]bool{t.Name: true, "lfs.url": true, "lfs.gitprotocol": true}
+		for n := r.Intn(3); n > 0; {
+			t2 := allowedTemplates[r.Intn(nk)]
+			if used[t2.Name] {
+				continue
+			}
+			used[t2.Name] = true
+			n--
+			k2 := overrideKinds[r.Intn(len(overrideKinds))] // boolalt on a non-boolean key becomes "empty"
+			over(t2, k2, overrideWheres[r.Intn(len(overrideWheres))])
+		}
+	}
+	// and sometimes an allow-listed key the user does not set
+	if r.Intn(3) == 0 {
+		for {
+			t3 := allowedTemplates[r.Intn(nk)]
+			dup := false
+			for _, e := range c.Entries {
+				if e.Name == t3.Name {
+					dup = true
+				}
+			}
+			if !dup {
+				e := g.mkEntry(r, t3, idx, slot)
+				idx++
+				c.Entries = append(c.Entries, e)
+				break
+			}
+		}
+	}
+	for j := range c.Entries {
+		e := &c.Entries[j]
+		for _, ge := range c.GitCfg {
+			if e.Allowed && ge.K == e.K {
+				e.Overridden = true
+			}
+		}
+	}
+	return c
+}
+
 func (c kase) class() string {
 	switch c.Kind {
 	case "single":
@@ -503,6 +674,15 @@ func (c kase) class() string {
 			sc = c.GitCfg[0].Scope
 		}
 		return fmt.Sprintf("precedence/%s/%s/%s", c.Loc, sc, strings.Join(uniq(names), "+"))
+	case "override":
+		if len(c.GitCfg) > 0 {
+			g := c.GitCfg[0]
+			for _, e := range c.Entries {
+				if e.K == g.K {
+					return fmt.Sprintf("override-%s/%s/%s", g.OKind, e.Name, g.Scope)
+				}
+			}
+		}
 	}
 	return fmt.Sprintf("%s/%s/%s", c.Kind, c.Loc, c.Variant)
 }
